@@ -361,6 +361,30 @@ def quaternize(kek, rng, protonate=None):
     return v
 
 
+def n_substitute(kek, rng, group=None):
+    """Kekule molecule -> copy in which one ring N-H carries a methyl or phenyl group instead of the hydrogen (editing API);
+    None when there is no ring N-H"""
+    cand = [n for n, a in kek.atoms() if a.atomic_number == 7 and a.in_ring and not a.charge and a.implicit_hydrogens == 1]
+    if not cand:
+        return None
+    n = rng.choice(cand)
+    v = kek.copy()
+    _fix_slots(v)
+    group = group or rng.choice(('methyl', 'methyl', 'phenyl', 'ethyl'))
+    x = v.add_atom('C')
+    v.add_bond(n, x, 1)
+    if group == 'ethyl':
+        y = v.add_atom('C')
+        v.add_bond(x, y, 1)
+    elif group == 'phenyl':
+        ring = [x] + [v.add_atom('C') for _ in range(5)]
+        for i, (p, q) in enumerate(zip(ring, ring[1:] + ring[:1])):
+            v.add_bond(p, q, 2 if i % 2 else 1)
+    if v.check_valence():
+        return None
+    return v
+
+
 def base_molecules(rng, n_corpus, n_special=None, n_ring=0, decorate_p=0.5, normalize=True):
     """mixed workload: corpus sample + curated + ring assemblies, part of them decorated"""
     out = []
